@@ -970,9 +970,12 @@ func (c *Case) genStruct(t *rapid.T, depth int, label string) *Node {
 			}
 		}
 		anonymous, embAKeys, inlinedOmitEmpty := false, false, false
-		fieldKind := rapid.IntRange(0, 18).Draw(t, fl+".kind")
+		fieldKind := rapid.IntRange(0, 19).Draw(t, fl+".kind")
 		if fieldKind == 18 {
 			fieldKind = 21
+		}
+		if fieldKind == 19 {
+			fieldKind = 22
 		}
 		if c.Cfg.FocusTypeRules && depth == 0 && i == 0 {
 			fieldKind = 18
@@ -1109,6 +1112,22 @@ func (c *Case) genStruct(t *rapid.T, depth int, label string) *Node {
 				}
 				f.Optional = rapid.Bool().Draw(t, fl+".opt")
 			}
+		case 22:
+			// interface member that is inlined: the keys of the implementation (its type code among them) are spliced into
+			// the map form of the struct; optional or not. Several such members in one struct share the "type" key: the
+			// encoder has to refuse what the decoder could not tell apart
+			switch rapid.IntRange(0, 4).Draw(t, fl+".which") {
+			case 0, 1:
+				f.N = c.nPayload(depth)
+			case 2, 3:
+				f.N = c.nShape()
+			default:
+				// a byte array with an object code behind a pointer: its map form is an object as well ({type, key: hex})
+				f.N = c.nAddrPtr()
+			}
+			f.Inlined = true
+			f.Optional = rapid.IntRange(0, 3).Draw(t, fl+".opt") != 0
+			key = ""
 		case 21:
 			// pointer to a number, bool or string (the binary form writes it like the value; the JSON form cannot express it)
 			el := c.genFixedLeaf(t, fl)
